@@ -280,7 +280,9 @@ const hour = int64(3600) * 1000000000
 func genScript(r *lib.Rng, shape int) []step {
 	var s []step
 	add := func(age int64, act int) { s = append(s, step{ageNs: age, action: act, arg: r.I64() & 0x7fffffff}) }
-	lossAct := func() int { return lib.Pick(r, actDropReq, actDropReq, actDropReply, actDropReply, actTamper, actReplay) }
+	lossAct := func() int {
+		return lib.Pick(r, actDropReq, actDropReq, actDropReply, actDropReply, actTamper, actReplay)
+	}
 	switch shape {
 	case 0: // loss-free
 		for i := int(r.Range(3, 12)); i > 0; i-- {
